@@ -241,9 +241,9 @@ def mkplain(prog):
     return {n: probes.mkprobe(n, shape=tuple(fs["shape"]) if fs["shape"] else None) for n, fs in all_fns(prog).items()}
 
 
-def gen_cfg(rng):
+def gen_cfg(rng, feats=None):
     return dict(
-        mc=rng.randint(1, 4), is_async=rng.random() < 0.35, attrs_via=rng.choice(["decorator", "decorator", "dict", "yaml", "json"]),
+        mc=rng.randint(1, (feats or {}).get("mc_max", 4)), is_async=rng.random() < 0.35, attrs_via=rng.choice(["decorator", "decorator", "dict", "yaml", "json"]),
         mc_via=rng.choice(["decorator", "config"]), controlled=rng.random() < 0.6, profile=rng.random() < 0.2,
         via_executor=rng.random() < 0.2,
     )
@@ -399,7 +399,7 @@ def one_program(col, pid, rng, feats, depth, pidx, reps=3, clauses=True, flavour
     g = G.Gen(rng, feats)
     prog = g.program(depth, "p%d" % pidx)
     plain = mkplain(prog)
-    cfg = gen_cfg(rng)
+    cfg = gen_cfg(rng, feats)
     if flavours == "sync":
         cfg["is_async"] = False
     rp = {"kind": "diff_case", "prog": prog, "cfg": cfg, "feats": feats, "sources": G.all_sources(prog)}
